@@ -54,9 +54,12 @@ def to_case(hist, bid):
     s = h["shape"]
     supi = SUPI[s["supi"]]
     reqs = []
-    if s["prior"] in ("created", "debit"):
-        reqs.append(dict(role="prior", method="POST", path="/chargingdata",
-                         body=json.dumps(good_create(supi, s.get("notify", "present") == "present"))))
+    if s["prior"] in ("created", "debit", "nearfull"):
+        cb = good_create(supi, s.get("notify", "present") == "present")
+        if s["prior"] == "nearfull":
+            # the session's record is within a few octets of the 65 535-octet limit: the probed update rolls it over
+            cb["serviceSpecificationInfo"] = "x" * 65380
+        reqs.append(dict(role="prior", method="POST", path="/chargingdata", body=json.dumps(cb)))
     if s["prior"] == "debit":
         b = dict(subscriberIdentifier=supi, invocationSequenceNumber=2, multipleUnitUsage=usage("online_req"), triggers=TRIG["final"])
         reqs.append(dict(role="prior", method="POST", path="/chargingdata/{REF}/update", body=json.dumps(b)))
@@ -86,7 +89,7 @@ def to_case(hist, bid):
               "_": "_", "u_1_2": supi.replace("/", "%2F") + "_1_2"}[s["rparam"]]
         reqs.append(dict(role="probe", method="PUT", path="/recharging/" + rp, body=""))
     # follow-up: a well-formed request for the same subscriber
-    if ep in ("update", "recharge") and s["prior"] in ("created", "debit"):
+    if ep in ("update", "recharge") and s["prior"] in ("created", "debit", "nearfull"):
         b = dict(subscriberIdentifier=supi, invocationSequenceNumber=9, multipleUnitUsage=usage("online_req"))
         reqs.append(dict(role="follow", method="POST", path="/chargingdata/{REF}/update", body=json.dumps(b)))
     reqs.append(dict(role="follow", method="POST", path="/chargingdata", body=json.dumps(good_create(supi))))
@@ -100,7 +103,7 @@ def cfg(tier):
         Nfcis=S("present", "absent"), Plmns=S("absent", "ok", "ok3", "shortmcc", "shortmnc", "emptymnc", "multibyte", "mcc2mnc3", "mcc4mnc1", "mcc5", "mnc5", "mcc4mnc2"),
         Pdus=S("absent", "full", "no_info", "no_slice", "no_snssai"),
         Usages=S("none", "online_req", "online_noreq", "offline"), Trigs=S("none", "partial", "final"),
-        Rparams=S("u_1", "u", "u_x", "_", "u_1_2"), Priors=S("fresh", "created", "debit"), Notifys=S("present", "absent"),
+        Rparams=S("u_1", "u", "u_x", "_", "u_1_2"), Priors=S("fresh", "created", "debit", "nearfull"), Notifys=S("present", "absent"),
         EmitOneIn=1)
     return c, 100000
 
